@@ -24,6 +24,12 @@ R["C20"] = ("cases: sequences of set_global_tbb_concurrency(n) (n in {1,2,3,4,7,
             "global_control::active_value right after each call returns, the limit in force at the start of every parallel region, the number of simultaneously active strands. "
             "distinct = call-sequence hash; non-trivial = >= 2 calls with different n")
 
+R["C04"] = ("cases: graph x {signed_mpi, fvs_trees_mpi, fvs_trees_tbb_mpi, iso_trees_mpi, iso_trees_tbb_mpi} x P in 1..8 x one layout seed per rank (uniform or independent) x W per rank x "
+            "choice stream (rank progress, eager/synchronising collectives, reduce permutation and bracketing, nested TBB choices). distinct = (graph hash, entry, P, schedule+layout fingerprint); "
+            "non-trivial = graph non-trivial as in C01, P >= 2 and (a reduce combined two existing candidates or the layouts differ between ranks)")
+R["C08"] = ("cases: base graph x 3-6 exact entry points drawn from all 11 (3 sequential, 3 TBB, 5 MPI) x transformation pipeline of 1-4 steps x schedule/layout choices. "
+            "distinct = (base graph hash, pipeline, entry set); non-trivial = cycle-space dimension >= 2 and at least two different back-ends compared")
+
 def run(prop, tier, seed):
     if prop not in vlib.STAGES:
         print("HARNESS-ERROR: no check registered for " + prop)
